@@ -76,6 +76,12 @@ func echoed(ctx context.Context) metadata.MD {
 	return out
 }
 
+// DelayMillis values that make the unary handler return no response and no error.
+const (
+	noRespTyped = -1
+	noRespBare  = -2
+)
+
 // The application: one method of each kind. All of them are well-behaved: they
 // propagate decode/receive errors, send no message after an error, and return.
 func newSvc(c *counters) *common.Svc {
@@ -92,6 +98,14 @@ func newSvc(c *counters) *common.Svc {
 			grpc.SetTrailer(ctx, metadata.Join(echoed(ctx), mdFromMap(in.Trailers)))
 			if in.Code != 0 {
 				return nil, statusFrom(in)
+			}
+			// a handler that produces neither a response nor an error (what a generated
+			// handler hands on when the application returns (nil, nil)), resp. a bare nil
+			switch in.DelayMillis {
+			case noRespTyped:
+				return (*gt.Message)(nil), nil
+			case noRespBare:
+				return nil, nil
 			}
 			return &gt.Message{Payload: in.Payload, Count: in.Count + 1}, nil
 		}},
